@@ -39,7 +39,7 @@ pub fn run(args: &Args) -> Report {
     for (k, (weights, faulty, name)) in pl.iter().enumerate() {
         let slice = total / pl.len() as u64;
         // a third of the slice for building the graph, the rest for good periods
-        let cfg = l2::L2Cfg { max_view, faulty: *faulty, weights: weights.clone(), max_states: args.tier.pick(100_000, 5_000_000), deadline: Instant::now() + Duration::from_secs(slice / 3), seed: args.seed, crashes: false, ignore: &["certified_block_displaced", "stale_high_vote_reported", "agreement", "unverified_block", "store_rewritten"] };
+        let cfg = l2::L2Cfg { max_view, faulty: *faulty, weights: weights.clone(), max_states: args.tier.pick(100_000, 5_000_000), deadline: Instant::now() + Duration::from_secs(slice / 3), seed: args.seed, crashes: false, forged: false, ignore: &["certified_block_displaced", "stale_high_vote_reported", "agreement", "unverified_block", "store_rewritten"] };
         let (sys, t, res) = l2::explore(&cfg, usize::MAX);
         graph_states += res.states;
         // deduplicate on the durable part (what a restart preserves)
